@@ -23,7 +23,7 @@ def to_smt2(hyps, goal):
     return s.to_smt2()
 
 
-RETRY_SEEDS = (11, 23, 37)
+RETRY_SEEDS = () if os.environ.get('PYVC_NO_RETRY') else (11, 23, 37)
 
 
 def _run(cmd, timeout):
